@@ -168,11 +168,37 @@ def evaluate(results):
     return ok_all, rows
 
 
+def listed_findings_reproduce(pid=None):
+    """every `finding:` line of KNOWN_FINDINGS.txt is reported (as KNOWN-FINDING) on the clean tree: a rule that silently stops reaching a listed construct
+    would otherwise go unnoticed"""
+    import re as _re
+    want = {}
+    for line in open(os.path.join(HERE, "KNOWN_FINDINGS.txt"), encoding="utf-8"):
+        m = _re.match(r"finding:\s*property=(\S+)\s+rule=(\S+)\s+key=(.+?)\s+::", line)
+        if m and (pid is None or m.group(1) == pid):
+            want.setdefault(m.group(1), set()).add((m.group(2), m.group(3)))
+    rows = []
+    for p_, keys in sorted(want.items()):
+        env = dict(os.environ, VERIF_EVIDENCE_DIR=tempfile.mkdtemp(prefix="verif_kf_"), VERIF_TIER="quick")
+        r = subprocess.run([sys.executable, os.path.join(HERE, "check.py"), p_, "--tier", "quick"], capture_output=True, text=True, env=env)
+        shutil.rmtree(env["VERIF_EVIDENCE_DIR"], ignore_errors=True)
+        got = set(_re.findall(r"^KNOWN-FINDING: property=\S+ rule=(\S+) key=(.+?) at ", r.stdout, _re.M))
+        for k in sorted(keys - got):
+            rows.append((f"known-finding/{p_}/{k[0]}/{k[1]}", "MISSED", "the listed finding is not reported on the clean tree"))
+        for k in sorted(keys & got):
+            rows.append((f"known-finding/{p_}/{k[0]}/{k[1]}", "killed", "reported as KNOWN-FINDING on the clean tree"))
+    return rows
+
+
 def run(pid=None, workers=None):
     jobs = jobs_for(pid)
     with ThreadPoolExecutor(max_workers=workers or min(16, os.cpu_count() or 4)) as ex:
         results = list(ex.map(one, jobs))
-    return evaluate(results)
+    ok, rows = evaluate(results)
+    extra = listed_findings_reproduce(pid)
+    if any(r[1] == "MISSED" for r in extra):
+        ok = False
+    return ok, rows + extra
 
 
 def run_for_property(pid, rep):
